@@ -148,5 +148,26 @@ CHECKS["C13"] = {
             "One recorded finding (Learner1D restored while a domain end point has no value normalises x by the data hull).",
     "technique": T,
 }
+CHECKS["C11"] = {
+    "level": "proof",
+    "text": "Kernel-checked: SequenceLearner — any order of the same tells gives the same state; AverageLearner — same moments, data "
+            "set, mean/std/loss and next suggestions; Learner1D with exact recomputation (factor 1), every loss function with any "
+            "number of neighbours, scalar or vector values: the state is a FUNCTION OF (data, pending) along valid histories — "
+            "permuted single tells, one batch through either tell_many path, and arbitrary histories with pending points that end "
+            "with the same data and pending set agree in both loss tables (as lists, in container order), loss(real) and ask(n) for "
+            "all n. With the default factor 2 the statement is false of code and model (kernel-checked counterexample; recorded "
+            "finding). Search: real point sets re-told in all permutations (<= 5) / random orders / batches, with pending points.",
+    "design_ref": "DESIGN.md section 6 C11", "note": _L1D_NOTE, "technique": T,
+}
+CHECKS["C12"] = {
+    "level": "proof",
+    "text": "Kernel-checked over ordered fields for ARBITRARY positive input and output factors, every loss function (needing only: "
+            "insensitive to a common factor on values that are all equal), every nn, every history: each Learner1D operation "
+            "commutes with scaling, the rescaled learner chooses exactly the scaled points with the same improvements and reports "
+            "the same losses. The bit-for-bit clause for IEEE doubles / powers of two and the LearnerND clause are decided by the "
+            "paired run on the real code (listed as partial: no Lean model of LearnerND, rounding outside the theorems). Search: "
+            "paired real learners, factors 2^k, k in [-30, 30], compared bit for bit at every step; generic factors to 1e-6.",
+    "design_ref": "DESIGN.md section 6 C12", "note": _L1D_NOTE + " One LearnerND defect found here was repaired by a fix: commit; one is a recorded finding (absolute log-det cut).", "technique": T,
+}
 _PENDING = "machinery for this property is not built yet in this commit (work in progress; see DESIGN.md section 9)"
 NOT_APPLICABLE = {f"C{i:02d}": _PENDING for i in range(1, 21) if f"C{i:02d}" not in CHECKS}
